@@ -7,6 +7,15 @@ A case = scenario + schedule:
    "order": [thread indices], "preempt": [[step, thread], ...]}
 An op is a JSON list: ["get", k], ["set", k, v], …; for file-backed components the pseudo-thread
 op ["write", state_index] replaces the file(s) by the given state (atomically, with a fixed mtime).
+
+Results are canonical JSON. For the components whose linearization search runs in Lean the results
+ARE the observations of the property that owns the sequential model — `DataStore`: the observations
+of C15 (`sqlite_adapter.Views.exec_step`: JSON texts, exception class names), `TextFileSource`: those
+of C14 (`textfile_common`: ordered items, versions mapped to the model's "v" + line through the
+inverse of `version_for_str` on the lines of the scenario) — and `lean_request` turns one run into
+the request of the driver op `conc.lru` / `conc.store` / `conc.textfile`. The same results are
+compared with the outcomes of the real code run sequentially (`sequential_outcomes`), which for
+these components is only a cross-check of the two references.
 """
 import itertools
 import json
@@ -78,39 +87,84 @@ class LruComp:
             raise ValueError(op)
         return _call(f)
 
+    PROBE = [["len"]] + [["contains", k] for k in range(4)]
+
     def probe(self):
-        return [self.do(["len"])] + [self.do(["contains", k]) for k in range(4)]
+        return [self.do(op) for op in self.PROBE]
 
     def close(self):
         pass
 
 
+def _tag(v):
+    """a JSON value of a scenario in the tagged transport form of C15 (sqlite_common / Driver.Sqlite.valFromJson)"""
+    import sqlite_common as Q
+    if v is None:
+        return ["n"]
+    if isinstance(v, bool):
+        return ["b", v]
+    if isinstance(v, int):
+        return Q.I(v)
+    if isinstance(v, float):
+        return Q.F(v)
+    if isinstance(v, str):
+        return Q.S(v)
+    if isinstance(v, list):
+        return ["l", [_tag(x) for x in v]]
+    if isinstance(v, dict):
+        return ["d", [[Q.S(k), _tag(x)] for k, x in v.items()]]
+    raise ValueError("value outside the scenario domain: %r" % (v,))
+
+
+def store_call(op):
+    """a store op of a scenario as the `DataStore` step of C15's histories (view "s")"""
+    from sqlite_adapter import cps
+    k = op[0]
+    st = {"view": "s"}
+    if k == "set":
+        st.update(op="set_value", sid=cps(op[1]), key=cps(op[2]), value=_tag(op[3]))
+    elif k == "get":
+        st.update(op="get_value", sid=cps(op[1]), key=cps(op[2]))
+    elif k == "del":
+        st.update(op="delete_value", sid=cps(op[1]), key=cps(op[2]))
+    elif k == "del_all":
+        st.update(op="delete_data", sid=cps(op[1]))
+    elif k == "data":
+        st.update(op="get_data", sid=cps(op[1]))
+    elif k == "find":
+        st.update(op="find_systems", key=cps(op[1]), value=_tag(op[2]))
+    elif k == "list":
+        st.update(op="list_systems")
+    else:
+        raise ValueError(op)
+    return st
+
+
 class StoreComp:
     traced = ("vinegar/utils/sqlite_store.py",)
+    PROBE = [["list"], ["data", "a"], ["data", "b"]]
+    STRICT = True        # DataStore(db_file): strict_value_checking defaults to True
 
     def __init__(self, cfg, workdir):
         from vinegar.utils.sqlite_store import DataStore
+        import sqlite_adapter
         with sched.coop_locks():
             self.s = DataStore(os.path.join(workdir, "db.sqlite"))
+        # C15's adapter performs the call and canonicalises the result; it is handed the store made above
+        self.views = sqlite_adapter.Views.__new__(sqlite_adapter.Views)
+        self.views.cfgs = {"s": {"kind": "store", "strict": self.STRICT}}
+        self.views.obj = {"s": self.s}
         for sid, key, val in cfg.get("initial", []):
-            self.s.set_value(sid, key, val)
+            self.do(["set", sid, key, val])
 
     def do(self, op):
-        s = self.s
-        k = op[0]
-        f = {
-            "set": lambda: s.set_value(op[1], op[2], op[3]),
-            "get": lambda: s.get_value(op[1], op[2]),
-            "del": lambda: s.delete_value(op[1], op[2]),
-            "del_all": lambda: s.delete_data(op[1]),
-            "data": lambda: s.get_data(op[1]),
-            "find": lambda: list(s.find_systems(op[1], op[2])),
-            "list": lambda: list(s.list_systems()),
-        }[k]
-        return _call(f)
+        obs, _ = self.views.exec_step(store_call(op))
+        if obs == {"exc": "Deadlock"}:
+            raise sched.Deadlock("all threads blocked")
+        return obs
 
     def probe(self):
-        return [self.do(["list"])] + [self.do(["data", sid]) for sid in ("a", "b")]
+        return [self.do(op) for op in self.PROBE]
 
     def close(self):
         try:
@@ -127,51 +181,222 @@ def _write_state(path, text, stamp):
     os.replace(tmp, path)
 
 
+TF_REGEX = r"(?P<mac>[0-9a-f:]+);(?P<ip>[0-9.]+);(?P<host>\w+)"
+STAMP0 = 1_000_000_000_000_000_000
+
+
+def tf_stamp(k):
+    """the modification stamp the file gets when the pseudo-thread writes state k (None: the initial file)"""
+    return STAMP0 if k is None else STAMP0 + 1_000_000_000 * (k + 1)
+
+
+def tf_case(cfg):
+    """the text-file scenario in the case format of C14 (textfile_common): regex + model configuration"""
+    conf = dict(cfg.get("conf", {}))
+    var = lambda src: {"source": src, "chain": [], "tnv": False, "unv": False}
+    c = {"mismatch": conf.pop("mismatch_action", "warn"), "duplicate": conf.pop("duplicate_system_id_action", "warn"),
+         "find_first": conf.pop("find_first_match", False), "cache": conf.pop("cache_enabled", True),
+         "sys_id": var("host"), "vars": [["net:mac", var("mac")], ["net:ip", var("ip")]]}
+    if conf:
+        raise ValueError("configuration keys outside the scenario domain: %r" % sorted(conf))
+    return {"regex": TF_REGEX, "ignore": None, "cfg": c}
+
+
 class TextFileComp:
     traced = ("vinegar/data_source/text_file.py",)
+    PROBE = [["get", h] for h in ("alpha", "beta", "gamma")] + [["find", "net:ip", "10.0.0.1"]]
 
     def __init__(self, cfg, workdir):
+        import logging
+        import textfile_common as T
         from vinegar.data_source.text_file import TextFileSource
+        from vinegar.utils.version import version_for_str
+        logging.disable(logging.CRITICAL)
+        self.T = T
         self.path = os.path.join(workdir, "hosts.txt")
         self.states = cfg["states"]
-        _write_state(self.path, self.states[0], 1_000_000_000_000_000_000)
-        conf = {"file": self.path,
-                "regular_expression": r"(?P<mac>[0-9a-f:]+);(?P<ip>[0-9.]+);(?P<host>\w+)",
-                "system_id": {"source": "host"},
-                "variables": {"net:mac": {"source": "mac"}, "net:ip": {"source": "ip"}}}
-        conf.update(cfg.get("conf", {}))
+        _write_state(self.path, self.states[0], tf_stamp(None))
+        # version_for_str(line) -> the model's "v" + line, for the lines of this scenario (as C14 does)
+        self.vtable = {}
+        for text in sorted({t for st in self.states for t in T.split_lines(st)}):
+            self.vtable.setdefault(version_for_str(text), []).append(text)
         with sched.coop_locks():
-            self.src = TextFileSource(conf)
+            self.src = TextFileSource(T.source_config(tf_case(cfg), self.path))
+
+    def _version(self, v):
+        if v == "":
+            return ""
+        if not isinstance(v, str):
+            return "?" + repr(v)
+        hit = self.vtable.get(v)
+        if hit is None:
+            return "?" + v
+        return "v" + hit[0] if len(hit) == 1 else "!" + v
 
     def do(self, op):
         k = op[0]
         if k == "write":
-            _write_state(self.path, self.states[op[1]], 1_000_000_000_000_000_000 + 1_000_000_000 * (op[1] + 1))
+            _write_state(self.path, self.states[op[1]], tf_stamp(op[1]))
             return None
-        if k == "get":
-            return _call(lambda: self.src.get_data(op[1], {}, ""))
-        if k == "find":
-            return _call(lambda: self.src.find_system(op[1], op[2]))
+        try:
+            if k == "get":
+                data, version = self.src.get_data(op[1], {}, "")
+                return ["data", self.T.canon_items(data), self._version(version)]
+            if k == "find":
+                r = self.src.find_system(op[1], self.T.val_to_py(op[2]))
+                return ["found", r if (r is None or isinstance(r, str)) else {"?": repr(r)}]
+        except sched.Deadlock:
+            raise
+        except Exception as e:
+            return ["raised", type(e).__name__]
         raise ValueError(op)
 
     def probe(self):
-        return [self.do(["get", h]) for h in ("alpha", "beta", "gamma")] + [self.do(["find", "net:ip", "10.0.0.1"])]
+        return [self.do(op) for op in self.PROBE]
 
     def close(self):
         pass
+
+
+_classified = {}
+
+
+def tf_states(cfg):
+    """every file state of the scenario with its lines pre-classified by the real `re` (textfile_common.classify)
+    and the stamp it is written with: (initial file, states as the pseudo-thread writes them)"""
+    import textfile_common as T
+    key = json.dumps(cfg["states"])
+    if key not in _classified:
+        _classified[key] = [{"content": st, "lines": T.classify(TF_REGEX, None, st)} for st in cfg["states"]]
+    cl = _classified[key]
+    return dict(cl[0], stamp=tf_stamp(None)), [dict(c, stamp=tf_stamp(k)) for k, c in enumerate(cl)]
+
+
+def lean_request(case, o, world=None):
+    """the driver request that decides in Lean whether the outcome `o` of one run is linearizable; `world` = the
+    tables of the model's world that the worker computed with the real libraries (yaml only)"""
+    comp, cfg = case["comp"], case["cfg"]
+    base = {"threads": case["threads"], "results": o["results"], "probe": COMPS[comp].PROBE, "probe_results": o["probe"]}
+    if comp == "lru":
+        return dict(base, op="conc.lru", size=cfg["size"], mark_on_update=cfg.get("mark_on_update", True))
+    if comp == "store":
+        return dict(base, op="conc.store", strict=StoreComp.STRICT,
+                    initial=[store_call(["set"] + list(i)) for i in cfg.get("initial", [])],
+                    threads=[[store_call(op) for op in t] for t in case["threads"]],
+                    probe=[store_call(op) for op in StoreComp.PROBE])
+    if comp == "textfile":
+        import textfile_common as T
+        init, states = tf_states(cfg)
+        return dict(base, op="conc.textfile", cfg=T.model_cfg(tf_case(cfg)["cfg"]), init=init, states=states)
+    if comp == "yaml":
+        return dict(base, op="conc.yaml", **world)
+    return None
+
+
+YAML_PDV = ""          # get_data(id, {}, ""): the version string of the (empty) preceding data
+YAML_MODEL_CFG = {"merge_lists": False, "merge_sets": True, "allow_empty_top": False}   # defaults of YamlTargetSource
+_yaml_setups = {}
+
+
+def yaml_ids(case):
+    return sorted({op[1] for t in case["threads"] for op in t if op[0] == "get"} | {op[1] for op in YamlComp.PROBE})
+
+
+def yaml_setup(case):
+    """the world of the Lean model for a yaml scenario, built as yaml_adapter.run_c12 builds it for C12 (every
+    source text of every file state rendered by vinegar's template engine for every system id of the scenario,
+    the rendered texts parsed by the real yaml.safe_load, the target expressions of the top file evaluated by
+    the real matcher), plus the table that maps the version strings of the real source back to the model's:
+    the model reports a version as the list of its pieces' text identifiers and tags (`Driver.Yaml.driverVer`),
+    the op conc.yaml_versions lists the versions the model can produce in the trees of the scenario, and
+    version_for_str / aggregate_version of the code under test are applied to them here"""
+    import itertools
+    import yaml_adapter as YA
+    import yaml_common as Y
+    cfg = case["cfg"]
+    ids = yaml_ids(case)
+    writes = [op[1] for t in case["threads"] for op in t if op[0] == "write"]
+    variants = sorted({p for n in range(len(writes) + 1) for sub in itertools.combinations(writes, n)
+                       for p in itertools.permutations(sub)})
+    key = json.dumps([cfg["states"], cfg.get("cache_size", 4), ids, variants], sort_keys=True)
+    if key in _yaml_setups:
+        return _yaml_setups[key]
+    from vinegar.utils.version import aggregate_version, version_for_str
+    srcs, texts = YA.Interner("S"), YA.Interner("T")
+    text_table, top_table, render_table, text_of = {}, {}, {}, {}
+    d = tempfile.mkdtemp(prefix="vverif-conc-yaml-")
+    try:
+        for sid in ids:
+            r = YA.Renderer("jinja", sid, {})
+            for st in cfg["states"]:
+                for rel, source in st.items():
+                    sname = srcs.get(source)
+                    if (sname, sid, YAML_PDV) in render_table:
+                        continue
+                    path = os.path.join(d, sname + "-" + sid + ".yaml")    # one path per template: no stale engine cache
+                    with open(path, "w", encoding="utf-8") as f:
+                        f.write(source)
+                    t = r.render(path)
+                    if t is None:
+                        render_table[(sname, sid, YAML_PDV)] = None
+                        continue
+                    tid = texts.get(t)
+                    text_of[tid] = t
+                    render_table[(sname, sid, YAML_PDV)] = tid
+                    if rel == "top.yaml":
+                        top_table[(tid, sid, YAML_PDV)] = YA.parse_top_text(t, sid, {})
+                    else:
+                        text_table[tid] = YA.parse_data_text(t)
+    finally:
+        shutil.rmtree(d, ignore_errors=True)
+
+    def edits(st):
+        return [["setTop", ["file", srcs.get(src)]] if rel == "top.yaml" else
+                ["write", rel[:-len(".yaml")].split("/"), srcs.get(src)] for rel, src in st.items()]
+
+    s0 = cfg["states"][0]
+    world = {"cfg": YAML_MODEL_CFG, "fuel": Y.FUEL, "cache_size": max(0, int(cfg.get("cache_size", 4))), "pdv": YAML_PDV,
+             "texts": [[k, v] for k, v in text_table.items()],
+             "tops": [[k[0], k[1], k[2], v] for k, v in top_table.items()],
+             "render": [[k[0], k[1], k[2], v] for k, v in render_table.items()],
+             "init": {"top": ["file", srcs.get(s0["top.yaml"])] if "top.yaml" in s0 else None,
+                      "files": [[rel[:-len(".yaml")].split("/"), ["file", srcs.get(src)]]
+                                for rel, src in s0.items() if rel != "top.yaml"]},
+             "states": [edits(st) for st in cfg["states"]]}
+    import core
+    resp = core.driver_call([dict(world, op="conc.yaml_versions", variants=[list(v) for v in variants], ids=ids)])[0]
+    if "ok" not in resp:
+        raise RuntimeError("conc.yaml_versions: %r" % (resp,))
+    vtable = {}
+    for row in resp["ok"]:
+        for mv in row:
+            if mv is None:
+                continue
+            inner = mv[1:-1]
+            pieces = []
+            for part in (inner.split("|") if inner else []):
+                tid, tag = part.rsplit(":", 1)
+                pieces.append(version_for_str(text_of[tid]) + ":" + tag)
+            vtable.setdefault(aggregate_version(pieces), set()).add(mv)
+    _yaml_setups[key] = (world, {k: sorted(v) for k, v in vtable.items()})
+    return _yaml_setups[key]
 
 
 class YamlComp:
     traced = ("vinegar/data_source/yaml_target.py",)
     # call/return granularity inside the compiler, line granularity in the methods that touch the shared cache
     line_funcs = ("get_data", "compile_data", "find_system")
+    PROBE = [["get", h] for h in ("alpha", "beta")]
 
-    def __init__(self, cfg, workdir):
+    def __init__(self, cfg, workdir, case=None):
         from vinegar.data_source.yaml_target import YamlTargetSource
+        import yaml_adapter
+        self.YA = yaml_adapter
         self.root = os.path.join(workdir, "tree")
         os.makedirs(self.root)
         self.states = cfg["states"]
         self._apply(0)
+        self.vtable = yaml_setup(case)[1] if case is not None else {}
         conf = {"root_dir": self.root, "cache_size": cfg.get("cache_size", 4)}
         with sched.coop_locks():
             self.src = YamlTargetSource(conf)
@@ -184,17 +409,27 @@ class YamlComp:
             os.makedirs(os.path.dirname(p), exist_ok=True)
             _write_state(p, text, base)
 
+    def _version(self, v):
+        hit = self.vtable.get(v)
+        if hit is None:
+            return "?" + v
+        return hit[0] if len(hit) == 1 else "!" + v
+
     def do(self, op):
         k = op[0]
         if k == "write":
             self._apply(op[1])
             return None
         if k == "get":
-            return _call(lambda: self.src.get_data(op[1], {}, ""))
+            # the observation of C11/C12 (yaml_adapter.call): tagged ordered data + version, or the exception class
+            o, _ = self.YA.call(self.src, op[1], {}, YAML_PDV)
+            if o[:2] == ["err", "Deadlock"]:
+                raise sched.Deadlock("all threads blocked")
+            return ["ok", o[1], self._version(o[2])] if o[0] == "ok" else o[:2]
         raise ValueError(op)
 
     def probe(self):
-        return [self.do(["get", h]) for h in ("alpha", "beta")]
+        return [self.do(op) for op in self.PROBE]
 
     def close(self):
         pass
@@ -205,6 +440,8 @@ COMPS = {"lru": LruComp, "store": StoreComp, "textfile": TextFileComp, "yaml": Y
 
 def _fresh(case):
     d = tempfile.mkdtemp(prefix="vverif-conc-")
+    if case["comp"] == "yaml":
+        return YamlComp(case["cfg"], d, case), d
     return COMPS[case["comp"]](case["cfg"], d), d
 
 
@@ -286,6 +523,7 @@ def _total_steps(case):
 
 
 def _judge_local(case, o):
+    # reference of the yaml source; cross-check of the Lean verdict for store / textfile
     if case["comp"] != "lru" and not o["deadlock"]:
         allowed = sequential_outcomes(case)
         o["in_sequential_outcomes"] = json.dumps([o["results"], o["probe"]], sort_keys=True) in allowed
@@ -296,6 +534,13 @@ def _judge_local(case, o):
 def run_case(case):
     if REPO not in sys.path:
         sys.path.insert(0, REPO)
+    out = _run_case(case)
+    if case["comp"] == "yaml":
+        out["world"] = yaml_setup(case)[0]
+    return out
+
+
+def _run_case(case):
     n = len(case["threads"])
     if case.get("sweep"):
         # every single pre-emption: at every global step, to every other thread
